@@ -391,19 +391,42 @@ func c01r6(r *R) {
 	c := r.C
 	dh := c.Func("pkg/ja3", "DigestHex")
 	bd := c.Func("pkg/ja3", "BareToDigestHex")
-	r.need(dh != nil && bd != nil, "ja3.DigestHex/BareToDigestHex not found")
-	o := r.Ob("C01.R6", "digest-chain").At(dh.Pos(), bd.Pos())
+	r.need(dh != nil, "ja3.DigestHex not found")
+	o := r.Ob("C01.R6", "digest-chain").At(dh.Pos())
+	// hexOfMD5: the value is hex.EncodeToString(md5.Sum(<arg>)[:]) (directly or through a local array)
+	hexOfMD5 := func(fn *ssa.Function, v ssa.Value, arg string) bool {
+		call, ok := v.(*ssa.Call)
+		if !ok || calleeName(&call.Call) != "encoding/hex.EncodeToString" {
+			return false
+		}
+		sl, ok := call.Call.Args[0].(*ssa.Slice)
+		if !ok || sl.Low != nil || sl.High != nil {
+			return false
+		}
+		src := sl.X
+		if al, ok := src.(*ssa.Alloc); ok {
+			st := uniqueStore(al)
+			if st == nil {
+				return false
+			}
+			src = st.Val
+		}
+		return c.Expr(src) == "crypto/md5.Sum("+arg+")"
+	}
 	eachInstr(dh, func(i ssa.Instruction) {
 		if ret, ok := i.(*ssa.Return); ok {
-			o.Check(c.Expr(ret.Results[0]) == "ja3.BareToDigestHex(ja3.Bare(p0))", "DigestHex returns %s", c.Expr(ret.Results[0]))
-		}
-	})
-	eachInstr(bd, func(i ssa.Instruction) {
-		if ret, ok := i.(*ssa.Return); ok {
 			e := c.Expr(ret.Results[0])
-			o.Check((e == "encoding/hex.EncodeToString(crypto/md5.Sum(p0)[:])" || e == "encoding/hex.EncodeToString(&sum[:])" && bareSumIsMD5(c, bd)), "BareToDigestHex returns %s, want hex.EncodeToString(md5.Sum(bare)[:])", e)
+			o.AtI(i).Check(e == "ja3.BareToDigestHex(ja3.Bare(p0))" && bd != nil || hexOfMD5(dh, ret.Results[0], "ja3.Bare(p0)"), "DigestHex returns %s, want the hex MD5 of ja3.Bare(hello)", e)
 		}
 	})
+	if bd != nil {
+		o.At(bd.Pos())
+		eachInstr(bd, func(i ssa.Instruction) {
+			if ret, ok := i.(*ssa.Return); ok {
+				o.AtI(i).Check(hexOfMD5(bd, ret.Results[0], "p0"), "BareToDigestHex returns %s, want hex.EncodeToString(md5.Sum(bare)[:])", c.Expr(ret.Results[0]))
+			}
+		})
+	}
 }
 
 // bareSumIsMD5: the local `sum` whose slice is hex-encoded holds md5.Sum(p0).
